@@ -294,6 +294,26 @@ class SpecMixin:
             raise Unsupported('spec len of %r' % (x,))
         if name == 'cap':
             return self.sev(env, args[0]).cap
+        if name == 'forall2':      # forall2(i, j, P): one quantifier over two indices with a multi-pattern (one array read per index)
+            v1, v2 = args[0][1], args[1][1]
+            k1, k2 = fresh('q!' + v1), fresh('q!' + v2)
+            env2 = SpecEnv(env.st, dict(env.binds, **{v1: k1, v2: k2}), env.old, env.results, parent=env)
+            if hasattr(env, 'binds_old'): env2.binds_old = dict(env.binds_old, **{v1: k1, v2: k2})
+            body = self.sev(env2, args[2])
+            for kk in (k1, k2):                  # absolute indices, as for one-variable quantifiers
+                norm = normalize_index(body, kk)
+                if norm is not None:
+                    jq, body = norm
+                    if kk is k1: k1 = jq
+                    else: k2 = jq
+            p1 = [t for t in select_patterns(body, k1) if not contains(t, k2)]
+            p2 = [t for t in select_patterns(body, k2) if not contains(t, k1)]
+            if p1 and p2:
+                try:
+                    return z3.ForAll([k1, k2], body, patterns=[z3.MultiPattern(p1[0], p2[0])])
+                except z3.Z3Exception:
+                    pass
+            return z3.ForAll([k1, k2], body)
         if name in ('forall', 'exists'):
             var = args[0][1]
             kq = fresh('q!' + var)
